@@ -605,15 +605,6 @@ theorem presentationTopics_eq (c : ConstId) (n ch : Int) :
   simp only [presentationTopics, setReqTopics, streamTopic, childTopics, h1, h2, h4, renderInt_one,
     renderInt_two, renderInt_four, List.cons_append, List.nil_append]
 
-theorem aget_mem {ν} (k : Int) (v : ν) (l : List (Int × ν)) (h : aget k l = some v) : (k, v) ∈ l := by
-  induction l with
-  | nil => simp [aget] at h
-  | cons p l ih =>
-    obtain ⟨k', v'⟩ := p
-    by_cases e : k = k'
-    · subst e; simp [aget] at h; subst h; simp
-    · simp [aget, e] at h; simp [ih h]
-
 /-- `init_topics` with persistence walks the whole tree -/
 theorem restoredTopics_cover (g : GW) (hw : WellKeyed g) (n c : Int)
     (hk : isKnown g n (some c) = true) : ∀ t ∈ childTopics n c, t ∈ restoredTopics g := by
